@@ -45,15 +45,17 @@ def run(ctx):
     for case, rng in ctx.cases(total):
         conv = CONVENTIONS[case % len(CONVENTIONS)]
         spec = {'case': case, 'convention': conv}
-        ctx.run_case(spec, one_dataset, obs, rng, conv, spec)
+        ctx.run_case(spec, one_dataset, obs, rng, conv, spec, ctx.workdir)
 
 
-def one_dataset(obs, rng, conv, spec):
+def one_dataset(obs, rng, conv, spec, workdir=None):
     kw = {}
     if conv in ('cf1d', 'cf2d') and rng.random() < 0.3:
         kw = {}
     model = make_dressed(rng, conv, dress=dict(per_kind=(1, 3), nongrid=1, time=True if rng.random() < 0.8 else None), **kw)
-    ds = model.encode()
+    ds, source = model.materialise(rng, workdir)
+    obs.cls('source:' + source)
+    spec['source'] = source
     with quiet_warnings():
         ems = obs.call('dataset.ems', lambda: ds.ems)
     if isinstance(ems, Failed):
@@ -71,7 +73,7 @@ def one_dataset(obs, rng, conv, spec):
         grid_pos = [da.dims.index(d) for d in kind.dims]
         if grid_pos != list(range(len(da.dims) - len(kind.dims), len(da.dims))):
             obs.cls('grid-dims-not-last')
-        want_vals = var.typed(var.canon)                     # canon[extras..., n]
+        want_vals = var.expected(var.canon, source)          # canon[extras..., n]
         want_dims = var.extra_dims
         # ---- ravel, default name -------------------------------------------------------
         flat = obs.call('ravel', ems.ravel, da)
